@@ -114,6 +114,16 @@ def label_compatible(policy, ef, gf):
 def accounting_oracle(case, obs):
     """The property, stated on the implementation's outputs.  obs carries facts + outputs."""
     F = Fraction
+    # "in whichever frame the objects are expressed": the ego-relative coordinates the critical filter works with (read through the
+    # same getters the filter calls) must be the coordinates the objects were generated at in the ego frame
+    from harness.props.C10 import facts_vs_generator
+
+    if (not obs.get("skip_generator_check") and all("ego_xy" in d for d in case.get("ests", []) + case.get("gts", []))
+            and len(obs.get("est_facts", [])) == len(case.get("ests", [])) and len(obs.get("gt_facts", [None])) == len(case.get("gts", []))):
+        m = (facts_vs_generator(case["ests"], obs["est_facts"], "base_link", None, "estimate")
+             or facts_vs_generator(case["gts"], obs["gt_facts"], "base_link", None, "ground truth"))
+        if m:
+            return m
     ef, gf = obs["est_facts"], obs["gt_facts"]
     cfg = obs["crit"]
     est_cfg = {k: v for k, v in cfg.items() if k not in ("ignore", "min_pts", "uuids")}
@@ -244,7 +254,7 @@ def gen_frame(rng, stream):
             ex, ey = lat(rng, -14, 14), lat(rng, -7, 7)
             pairs.append([e, None])
         ests.append({"family": "autoware", "label": lab, "name": rng.choice(NAMES[lab]), "attrs": [], "conf": conf, "uuid": None,
-                     "pts": None, "pos": ego_to_frame(frame, ego, (ex, ey, 0.0)),
+                     "pts": None, "pos": ego_to_frame(frame, ego, (ex, ey, 0.0)), "ego_xy": [ex, ey],
                      "quat": list(ego["quat"]) if frame == "map" else [1.0, 0.0, 0.0, 0.0]})
     rng.shuffle(pairs)
     crit = {"targets": targets + (rng.sample([l for l in LABEL_POOL if l not in targets], 1) if rng.random() < 0.2 and n_t < 6 else [])}
